@@ -319,3 +319,97 @@ Section StoreStatus.
     cbn [sub_or_null]. rewrite merge_obj. cbn [obj_of]. rewrite (merge_fields_flat record [] F). reflexivity.
   Qed.
 End StoreStatus.
+
+(* C16, "can be purged completely", the DEFAULT progress storage (SmartProgressStorage: annotations, then a read-only status
+   stanza under status.xxx): after the purge neither of the two storages yields the record from the object as patched by an
+   RFC 7386 server - the annotation keys are tombstoned or withdrawn, the status record is tombstoned where the object has it. *)
+Section PurgeSmart.
+  Variable dg : chars -> list N.
+
+  Lemma drs_cong k1 k2 :
+    lookup "kind" k1 = lookup "kind" k2 -> lookup "metadata" k1 = lookup "metadata" k2 ->
+    is_drs_body (JObj k1) = is_drs_body (JObj k2).
+  Proof. intros A B. unfold is_drs_body. cbn [resolve]. rewrite A, B. reflexivity. Qed.
+
+  Lemma ann_resolve_cong k1 k2 k :
+    lookup "metadata" k1 = lookup "metadata" k2 -> resolve (JObj k1) (ann_path k) = resolve (JObj k2) (ann_path k).
+  Proof. intro B. unfold ann_path. rewrite !resolve_cons_obj_of. cbn [obj_of]. rewrite B. reflexivity. Qed.
+
+  Lemma fetch_keys_cong k1 k2 ks :
+    lookup "metadata" k1 = lookup "metadata" k2 -> fetch_keys (JObj k1) ks = fetch_keys (JObj k2) ks.
+  Proof.
+    intro B. induction ks as [|a ks IH]; cbn [fetch_keys]; [reflexivity|].
+    rewrite (ann_resolve_cong k1 k2 a B). destruct (loads_opt (resolve (JObj k2) (ann_path a))) as [o| | |]; cbn [bind]; try reflexivity.
+    destruct o; [reflexivity|exact IH].
+  Qed.
+
+  Lemma pfetch_ann_cong prefix v1 verbose tk key k1 k2 :
+    lookup "kind" k1 = lookup "kind" k2 -> lookup "metadata" k1 = lookup "metadata" k2 ->
+    pfetch dg (PAnn prefix v1 verbose tk) key (JObj k1) = pfetch dg (PAnn prefix v1 verbose tk) key (JObj k2).
+  Proof.
+    intros A B. cbn [pfetch]. unfold full_keys. rewrite (drs_cong k1 k2 A B). apply fetch_keys_cong. exact B.
+  Qed.
+
+  Lemma set_absent_app {V} k (v : V) (l : list (string * V)) : lookup k l = None -> set k v l = l ++ [(k, v)].
+  Proof.
+    induction l as [|[k' v'] l IH]; cbn; [reflexivity|]. destruct (String.eqb k k'); [discriminate|]. intro H. rewrite (IH H). reflexivity.
+  Qed.
+
+  Lemma merge_fields_app a : forall b t, merge_fields (a ++ b) t = merge_fields b (merge_fields a t).
+  Proof.
+    induction a as [|[k v] a IH]; intros b t; [reflexivity|]. cbn [app]. destruct v; cbn [merge_fields]; apply IH.
+  Qed.
+
+  Lemma pfetch_two A S key b :
+    pfetch dg (PMulti [A; S]) key b
+    = bind (pfetch dg A key b) (fun r => match r with
+        | Some x => Ok (Some x)
+        | None => bind (pfetch dg S key b) (fun r => match r with Some x => Ok (Some x) | None => Ok None end)
+        end).
+  Proof. reflexivity. Qed.
+
+  Theorem smart_purge_complete prefix v1 verbose tk frest tf key body patch :
+    (forall v, resolve body ("status" :: frest) = Some v -> is_obj v = true) ->
+    ppurge dg (smart prefix v1 verbose tk ("status" :: frest) tf) key body (JObj []) = Ok patch ->
+    pfetch dg (smart prefix v1 verbose tk ("status" :: frest) tf) key (merge body patch) = Ok None.
+  Proof.
+    intros G H. unfold smart in *. cbn [ppurge] in H.
+    set (ks := full_keys dg prefix v1 body key) in *.
+    destruct (purge_keys body (JObj []) ks) as [p1| | |] eqn:E; try discriminate. cbn [bind] in H.
+    pose proof (purge_keys_shape body ks (JObj []) [] p1 ap_empty E) as A1.
+    pose proof (fold_purge_nodup body ks [] eq_refl) as ND1.
+    assert (F1 : pfetch dg (PAnn prefix v1 verbose tk) key (merge body p1) = Ok None).
+    { apply (ann_purge_complete dg prefix v1 verbose tk key body (JObj []) [] p1 ap_empty eq_refl). cbn [ppurge]. exact E. }
+    remember (fold_left (purge_anns body) ks []) as anns1 eqn:Ea. clear Ea.
+    assert (P1 : exists pk1, p1 = JObj pk1 /\ lookup "status" pk1 = None).
+    { destruct A1; eexists; split; reflexivity. }
+    destruct P1 as (pk1 & -> & LS).
+    unfold purge_path in H.
+    destruct (resolve body (("status" :: frest) ++ [key])) as [bv|] eqn:RB.
+    - (* the object has the status record: tombstone *)
+      cbn [app] in H. rewrite (ensure_cons_ne _ _ _ _ (app_one_ne frest key)) in H. rewrite LS in H.
+      destruct (ensure (JObj []) (frest ++ [key]) JNull) as [sub| | |] eqn:ES; try discriminate.
+      cbn [bind] in H. injection H as <-.
+      destruct (ensure_null_is_obj frest key sub ES) as [Ob NN]. destruct sub as [| | | | |so|]; try discriminate.
+      rewrite merge_obj, (set_absent_app _ _ _ LS), merge_fields_app. cbn [merge_fields].
+      rewrite merge_obj in F1. set (t1 := merge_fields pk1 (obj_of body)) in *.
+      rewrite pfetch_two.
+      rewrite (pfetch_ann_cong prefix v1 verbose tk key _ t1
+                 (lookup_set_other "kind" "status" _ _ ltac:(discriminate)) (lookup_set_other "metadata" "status" _ _ ltac:(discriminate))).
+      rewrite F1. cbn [bind pfetch].
+      rewrite resolve_cons_obj_of. cbn [obj_of]. rewrite lookup_set_same.
+      destruct (merge_tombstone frest (match lookup "status" t1 with Some tv => tv | None => JNull end) key (JObj so) ES) as (kvs & R & L).
+      rewrite R, L. reflexivity.
+    - (* no status record on the object: nothing pending for it either *)
+      assert (RP : resolve (JObj pk1) (("status" :: frest) ++ [key]) = None) by (cbn [app resolve]; rewrite LS; reflexivity).
+      rewrite RP in H. injection H as <-.
+      rewrite pfetch_two, F1. cbn [bind pfetch].
+      pose proof (merge_ann_only_other_top body (JObj pk1) "status" (ann_patch_ann_only _ _ A1) ltac:(discriminate)) as LT.
+      rewrite resolve_cons_obj_of, LT.
+      rewrite resolve_app', resolve_cons_obj_of in RB. rewrite resolve_cons_obj_of in G.
+      destruct (lookup "status" (obj_of body)) as [sv|]; [|reflexivity].
+      destruct (resolve sv frest) as [v|] eqn:RF; [|reflexivity].
+      pose proof (G v eq_refl) as O. destruct v; try discriminate.
+      cbn [resolve] in RB. destruct (lookup key kvs); [discriminate|reflexivity].
+  Qed.
+End PurgeSmart.
